@@ -206,14 +206,18 @@ def classify_ep(ogp, term, modP, h):
     if not (is_any or is_member):
         return None
 
-    def entry(result_ty, arg_tys):
+    def entry(result_ty, arg_tys, stage='Vertex'):
         res = None if result_ty is None else ('some', V('naga::FunctionResult', ty=result_ty, binding=None))
         fn = V('naga::Function', name=('some', 'f'), result=res, arguments=[V('naga::FunctionArgument', name=None, ty=t, binding=None) for t in arg_tys])
-        return V('naga::EntryPoint', name='e', stage=V('naga::ShaderStage::Vertex'), function=fn)
+        return V('naga::EntryPoint', name='e', stage=V('naga::ShaderStage::' + stage), function=fn)
     H_, O_ = 'H', 'OTHER'
+    # A and B speak of entry points of every stage: the worlds vary the stage too, so that a condition restricted to one stage (e.g. "argument
+    # of a *vertex* entry") is not mistaken for B
     worlds = [([], (False, False)), ([entry(None, [])], (False, False)), ([entry(H_, [])], (True, False)), ([entry(O_, [O_])], (False, False)), ([entry(O_, [O_, H_])], (False, True)),
               ([entry(None, [O_]), entry(H_, [H_])], (True, True)), ([entry(O_, []), entry(None, [H_])], (False, True)),
-              ([entry(H_, [O_]), entry(O_, [H_, O_])], (True, True)), ([entry(O_, [H_]), entry(H_, [])], (True, True)), ([entry(H_, [O_]), entry(None, [])], (True, False))]
+              ([entry(H_, [O_]), entry(O_, [H_, O_])], (True, True)), ([entry(O_, [H_]), entry(H_, [])], (True, True)), ([entry(H_, [O_]), entry(None, [])], (True, False)),
+              ([entry(O_, [H_], 'Fragment')], (False, True)), ([entry(None, [O_, H_], 'Compute')], (False, True)), ([entry(H_, [], 'Fragment')], (True, False)),
+              ([entry(H_, [O_], 'Compute'), entry(None, [])], (True, False)), ([entry(O_, [O_]), entry(H_, [H_], 'Fragment')], (True, True))]
     table = {}
     for eps, ab in worlds:
         def leaf(t, eps=eps):
